@@ -29,8 +29,8 @@ theorem bodyA_sem : ∀ (p : Prog) (gen : Bool) (t : Nat) (env : List Val) (caug
     exfalso
     simp only [Prog.plainY, Bool.and_eq_true] at hr
     unfold bodyA at hn
-    simp only [hm, if_true, Err.isBase, Bool.false_eq_true, if_false] at hn
-    have hx := (bodyA_good h gen t env (some .syncRefused) i (s.emit (.syncX t (.err .syncRefused))) (by simp [hm])).2
+    simp only [hm, if_true, refusal_isBase, Bool.false_eq_true, if_false] at hn
+    have hx := (bodyA_good h gen t env (some (refusal c)) i (s.emit (.syncX t (.err (refusal c)))) (by simp [hm])).2
     have hle := hx.nSync_le
     rw [emit_nSync] at hle
     simp only [isSyncX, if_true] at hle
